@@ -54,3 +54,15 @@ def emission_tie(ctx):
 def crew_tie(ctx):
     from harness.extract import crew_src
     return _run(ctx, "crew", crew_src.generate, "LdarModel.Props.CrewTie", "LdarModel/Props/CrewTie.lean")
+
+
+def planner_tie(ctx):
+    from harness.extract import planner_src
+    return _run(ctx, "planner", planner_src.generate, "LdarModel.Props.PlannerTie",
+                "LdarModel/Props/PlannerTie.lean")
+
+
+def followup_tie(ctx):
+    from harness.extract import followup_src
+    return _run(ctx, "followup", followup_src.generate, "LdarModel.Props.FollowUpTie",
+                "LdarModel/Props/FollowUpTie.lean")
